@@ -2,6 +2,7 @@ package props
 
 import (
 	"astverif/extrarules"
+	"astverif/layout"
 	"astverif/muxstate"
 	"astverif/tables"
 )
@@ -28,6 +29,14 @@ func c05(c *Ctx) {
 	// a PID handed out twice silently replaces a stream's context and restarts its counter
 	muxstate.AutoPID(c.P, r, muxstate.RuleAutoPID)
 	muxstate.IncSites(c.P, r)
+	// a packet WriteData fills exactly (payload + adaptation field, including the one-byte adaptation field) is accepted by
+	// writePacket: a fit check that rejects it would withhold a packet whose counter value is already consumed (the
+	// whole-packet joints of C01)
+	ckj := layout.NewBits(c.P)
+	ckj.A3(r, c01Joints(c))
+	for _, d := range ckj.IP.Diag {
+		r.Unknown("A0", "diag/"+d, "", d)
+	}
 	// a stream's counter lives as long as the stream stays added: contexts are created by AddElementaryStream for the added
 	// PID and removed by RemoveElementaryStream only (rebuilding the map would restart the counters of the other streams)
 	extrarules.WhoMayCall(c.P, r, "CC-ctx", "newEsContext/called-from", "newEsContext", []string{"(*Muxer).AddElementaryStream"}, 1,
